@@ -470,7 +470,7 @@ fn gather_builtin_features_from_flags_in_gitconfig(
     opt: &cli::Opt,
     git_config: &GitConfig,
 ) {
-    for child_feature in builtin_features.keys() {
+    for child_feature in sorted_feature_names(builtin_features) {
         if let Some(true) = git_config.get::<bool>(&format!("{git_config_key}.{child_feature}")) {
             gather_builtin_features_recursively(child_feature, features, builtin_features, opt);
         }
@@ -509,7 +509,7 @@ fn gather_builtin_features_recursively(
                 }
             }
         }
-        for child_feature in builtin_features.keys() {
+        for child_feature in sorted_feature_names(builtin_features) {
             if let Some(child_features_fn) = feature_data.get(child_feature) {
                 if let ProvenancedOptionValue::DefaultValue(OptionValue::Boolean(true)) =
                     child_features_fn(opt, &None)
@@ -524,6 +524,17 @@ fn gather_builtin_features_recursively(
             }
         }
     }
+}
+
+/// The names of the builtin features in a fixed (alphabetical) order. Iterating over the hash
+/// map directly would make the relative priority of features that are enabled via boolean flags
+/// depend on the hasher's random state, i.e. differ from one run of delta to the next.
+fn sorted_feature_names(
+    builtin_features: &HashMap<String, features::BuiltinFeature>,
+) -> Vec<&String> {
+    let mut names: Vec<&String> = builtin_features.keys().collect();
+    names.sort();
+    names
 }
 
 fn split_feature_string(features: &str) -> impl Iterator<Item = &str> {
